@@ -128,3 +128,27 @@ def r_F12():
 
 
 run.KNOWN_EXTRA['C12'] = lambda: {('F10', 'C12'): r_F10, ('F12', 'C12'): r_F12}
+
+
+def r_F12_api():
+    from .adapters import spk, SpikeTrain
+    with pyxrun.pyx_backend():
+        import numpy as _np
+        with _np.errstate(all='ignore'):
+            v = spk.isi_distance(SpikeTrain([4.0], [0, 4.0]), SpikeTrain([4.0], [0, 4.0]))
+    return math.isnan(v), {'isi_distance([4],[4]) compiled-kernel configuration': v}
+
+
+def r_F10_api():
+    from .adapters import spk, SpikeTrain
+    from . import oracles as O
+    A = SpikeTrain([1.0, 2.0, 3.0], [0, 4.0]); B = SpikeTrain([1.1, 2.1, 3.1], [0, 4.0])
+    E1 = SpikeTrain([], [0, 4.0]); E2 = SpikeTrain([], [0, 4.0])
+    with pyxrun.pyx_backend():
+        v = O.quiet(spk.spike_train_order, [A, B, E1, E2])
+        e = O.quiet(spk.spike_train_order_profile, [A, B, E1, E2]).avrg()
+    return not O.feq(v, e), {'spike_train_order': v, 'profile average': e}
+
+
+for _p in ('C05', 'C07', 'C18', 'C13', 'C14'):
+    run.KNOWN_EXTRA[_p] = (lambda p=_p: dict([(('F12', p), r_F12_api)] + ([(('F10', 'C05'), r_F10_api)] if p == 'C05' else [])))
